@@ -1,6 +1,6 @@
 (** C21 — model of PrimeFieldElement._sqrt / _is_sqr (mpyc/finfields.py) with the gmpy stubs
     legendre = jacobi (binary-free Euclid-style loop of mpyc/gmpy.py), powmod, invert underneath. *)
-Require Import MPyC.Field MPyC.Zp MPyC.FinField.
+Require Import MPyC.Field MPyC.Zp MPyC.FinField MPyC.Euler.
 From Coq Require Import ZArith Znumtheory Lia Bool List.
 Import ListNotations.
 Local Open Scope Z_scope.
@@ -99,125 +99,7 @@ Definition sqrt_row (p : Z) (l : list Z) : list (Z * Z * Z) :=
 Definition legendre_row (p : Z) (l : list Z) : list Z := map (fun a => code (legendre a p)) l.
 
 (** ** Proofs *)
-From Coq Require Import Permutation Zpow_facts.
-
-(** *** Fermat's little theorem, first in any field whose nonzero elements are enumerated *)
-Section FermatAbstract.
-Variable K : FieldT.
-Add Field KF : (fth K).
-
-Lemma fprod_perm (l l' : list K) : Permutation l l' -> fprod l = fprod l'.
-Proof.
-  induction 1 as [|x l l' _ IH|x y l|l l' l'' _ IH1 _ IH2]; simpl.
-  - reflexivity.
-  - rewrite IH. reflexivity.
-  - ring.
-  - rewrite IH1. exact IH2.
-Qed.
-
-Lemma fprod_map_mul (a : K) (l : list K) :
-  fprod (map (fmul K a) l) = fmul K (fpow a (length l)) (fprod l).
-Proof. induction l as [|x l IH]; simpl; [ring|]. rewrite IH. ring. Qed.
-
-Theorem fermat_abstract (units : list K) :
-  NoDup units -> (forall x, In x units <-> x <> f0 K) ->
-  forall a, a <> f0 K -> fpow a (length units) = f1 K.
-Proof.
-  intros Hnd Hall a Ha.
-  assert (Hinj : forall x y, fmul K a x = fmul K a y -> x = y).
-  { intros x y E. apply (fsub_eq0 K). apply (fmul_eq0 K a); [|exact Ha].
-    transitivity (fsub K (fmul K a x) (fmul K a y)); [ring|]. rewrite E. ring. }
-  assert (HP : Permutation (map (fmul K a) units) units).
-  { apply NoDup_Permutation_bis.
-    - apply FinFun.Injective_map_NoDup; [exact Hinj|exact Hnd].
-    - rewrite map_length. apply le_n.
-    - intros y Hy. apply in_map_iff in Hy. destruct Hy as [x [<- Hx]].
-      apply Hall. apply fmul_neq0; [exact Ha|apply Hall, Hx]. }
-  apply fprod_perm in HP. rewrite fprod_map_mul in HP.
-  assert (HN : fprod units <> f0 K) by (apply fprod_neq0; intros x Hx; apply Hall, Hx).
-  apply (fsub_eq0 K). apply (fmul_eq0 K (fprod units)); [|exact HN].
-  transitivity (fsub K (fmul K (fpow a (length units)) (fprod units)) (fprod units)); [ring|].
-  rewrite HP. ring.
-Qed.
-End FermatAbstract.
-
-(** ... then for the integers modulo a prime *)
-Lemma zval_fpow p (Hn : p <> 0) a n : zval (@fpow (ZpOps p) (mkZp p a) n) = (a ^ Z.of_nat n) mod p.
-Proof.
-  induction n as [|n IH].
-  - reflexivity.
-  - cbn [fpow]. change (fmul (ZpOps p)) with (fun x y : Zp p => mkZp p (zval x * zval y)). cbv beta.
-    rewrite zval_mkZp, IH, zval_mkZp. rewrite Nat2Z.inj_succ, Z.pow_succ_r by lia.
-    rewrite <- Z.mul_mod by exact Hn. reflexivity.
-Qed.
-
-Definition zp_units (p : Z) : list (Zp p) := map (zp_of_nat p) (seq 1 (Z.to_nat (p - 1))).
-
-Lemma NoDup_map_inj_in {A B} (f : A -> B) (l : list A) :
-  (forall x y, In x l -> In y l -> f x = f y -> x = y) -> NoDup l -> NoDup (map f l).
-Proof.
-  induction l as [|a l IH]; intros Hinj Hnd; simpl; [constructor|].
-  inversion Hnd as [|? ? Hnotin Hnd']; subst. constructor.
-  - intros Hin. apply in_map_iff in Hin. destruct Hin as [x [E Hx]].
-    assert (x = a) by (apply Hinj; simpl; auto). subst. contradiction.
-  - apply IH; [|exact Hnd']. intros x y Hx Hy. apply Hinj; simpl; auto.
-Qed.
-
-Lemma zp_units_spec p : prime p ->
-  NoDup (zp_units p) /\ (forall x : Zp p, In x (zp_units p) <-> x <> f0 (ZpOps p)) /\
-  length (zp_units p) = Z.to_nat (p - 1).
-Proof.
-  intros Hp. pose proof (prime_ge_2 p Hp) as Hp2. unfold zp_units. repeat split.
-  - apply NoDup_map_inj_in; [|apply seq_NoDup].
-    intros i j Hi Hj. apply in_seq in Hi, Hj. apply zp_of_nat_inj; lia.
-  - intros Hin E. apply in_map_iff in Hin. destruct Hin as [i [Ei Hi]]. apply in_seq in Hi.
-    subst x. apply (f_equal zval) in E. unfold zp_of_nat in E. cbn [f0 ZpOps] in E. rewrite !zval_mkZp in E.
-    rewrite Z.mod_0_l, Z.mod_small in E by lia. lia.
-  - intros Hne. apply in_map_iff. exists (Z.to_nat (zval x)).
-    assert (Hr : 0 <= zval x < p) by (rewrite <- (zval_red p x); apply Z.mod_pos_bound; lia).
-    assert (Hz : zval x <> 0).
-    { intros E. apply Hne. apply Zp_eq. cbn [f0 ZpOps]. rewrite zval_mkZp, Z.mod_0_l by lia. exact E. }
-    split.
-    + apply Zp_eq. unfold zp_of_nat. rewrite zval_mkZp, Z2Nat.id by lia. apply Z.mod_small. lia.
-    + apply in_seq. lia.
-  - rewrite map_length, seq_length. reflexivity.
-Qed.
-
-Theorem fermat p a : prime p -> a mod p <> 0 -> a ^ (p - 1) mod p = 1.
-Proof.
-  intros Hp Ha. pose proof (prime_ge_2 p Hp) as Hp2.
-  destruct (zp_units_spec p Hp) as [Hnd [Hall Hlen]].
-  assert (Hne : mkZp p a <> f0 (ZpOps p)).
-  { intros E. apply (f_equal zval) in E. cbn [f0 ZpOps] in E. rewrite !zval_mkZp in E.
-    rewrite Z.mod_0_l in E by lia. contradiction. }
-  pose proof (fermat_abstract (ZpField p Hp) (zp_units p) Hnd Hall (mkZp p a) Hne) as F.
-  assert (F' : zval (@fpow (ZpOps p) (mkZp p a) (Z.to_nat (p - 1))) = zval (f1 (ZpOps p))).
-  { rewrite <- Hlen. exact (f_equal zval F). }
-  rewrite zval_fpow in F' by lia. rewrite Z2Nat.id in F' by lia. rewrite F'.
-  cbn [f1 ZpOps]. rewrite zval_mkZp. apply Z.mod_1_l. lia.
-Qed.
-
-(** half of Euler's criterion: a nonzero square has a^((p-1)/2) = 1 *)
-Lemma euler_square p a b : prime p -> p <> 2 -> (b * b) mod p = a mod p -> a mod p <> 0 ->
-  a ^ ((p - 1) / 2) mod p = 1.
-Proof.
-  intros Hp H2 Hb Ha. pose proof (prime_ge_2 p Hp) as Hp2.
-  assert (Hodd : p mod 2 = 1).
-  { destruct (Z.eq_dec (p mod 2) 0) as [E|E].
-    - apply Zmod_divide in E; [|lia]. apply prime_div_prime in E; [lia|apply prime_2|exact Hp].
-    - pose proof (Z.mod_pos_bound p 2 ltac:(lia)). lia. }
-  assert (Hh : p - 1 = 2 * ((p - 1) / 2)).
-  { pose proof (Z.div_mod (p - 1) 2 ltac:(lia)) as D.
-    assert ((p - 1) mod 2 = 0).
-    { rewrite Zminus_mod, Hodd. reflexivity. }
-    lia. }
-  assert (Hhn : 0 <= (p - 1) / 2) by (apply Z.div_pos; lia).
-  rewrite Zpower_mod by lia. rewrite <- Hb. rewrite <- Zpower_mod by lia.
-  rewrite Z.pow_mul_l. rewrite <- Z.pow_add_r by lia.
-  replace ((p - 1) / 2 + (p - 1) / 2) with (p - 1) by lia.
-  apply fermat; [exact Hp|].
-  intros E. apply Ha. rewrite <- Hb. rewrite <- Z.mul_mod_idemp_l, E by lia. reflexivity.
-Qed.
+From Coq Require Import Zpow_facts.
 
 (** *** the branches of _sqrt *)
 Lemma powmod_nonneg x y m : m <> 0 -> 0 <= y -> powmod x y m = Ok (x ^ y mod m).
@@ -388,3 +270,221 @@ Proof.
       * apply Z.eqb_eq in C3. contradiction.
     + intros ->. apply sqrt_zero.
 Qed.
+
+(** *** is_sqr: the Legendre symbol by Euler's criterion, every prime *)
+Definition legendre_symbol (p a : Z) : Z :=
+  if a mod p =? 0 then 0 else if a ^ ((p - 1) / 2) mod p =? 1 then 1 else -1.
+
+Theorem legendre_symbol_spec p a : prime p -> p <> 2 ->
+  (legendre_symbol p a <> -1 <-> exists b, (b * b) mod p = a mod p) /\
+  (legendre_symbol p a = 0 <-> a mod p = 0) /\
+  (legendre_symbol p a = -1 -> a ^ ((p - 1) / 2) mod p = p - 1).
+Proof.
+  intros Hp H2. pose proof (prime_ge_2 p Hp) as Hp2. unfold legendre_symbol.
+  destruct (a mod p =? 0) eqn:E0.
+  - apply Z.eqb_eq in E0. repeat split; try lia; try discriminate.
+    intros _. exists 0. rewrite E0. apply Z.mod_0_l. lia.
+  - apply Z.eqb_neq in E0. destruct (euler_criterion p a Hp H2 E0) as [Hiff Hpm].
+    destruct (a ^ ((p - 1) / 2) mod p =? 1) eqn:E1.
+    + apply Z.eqb_eq in E1. repeat split; try lia; try discriminate. intros _. apply Hiff, E1.
+    + apply Z.eqb_neq in E1. split; [split|split; [split|]].
+      * intros Hc. exfalso. apply Hc. reflexivity.
+      * intros Hs Hc. apply E1, Hiff, Hs.
+      * intros Hc. discriminate Hc.
+      * intros Hc. contradiction.
+      * intros _. destruct Hpm as [E|E]; [contradiction|exact E].
+Qed.
+
+(** is_sqr(a) holds exactly for the squares, for EVERY prime, provided gmpy.legendre returns the Legendre
+    symbol on this input (that the jacobi loop does so in general is quadratic reciprocity — not proved;
+    discharged by computation for p < 200 in [sqrt_is_sqr_bounded]) *)
+Theorem is_sqr_correct_if_legendre p a : prime p -> 0 <= a < p ->
+  (p <> 2 -> legendre a p = Ok (legendre_symbol p a)) ->
+  exists s, is_sqr p a = Ok s /\ (s = true <-> exists b, (b * b) mod p = a).
+Proof.
+  intros Hp Ha HL. unfold is_sqr. destruct (p =? 2) eqn:E2.
+  - apply Z.eqb_eq in E2. subst p. exists true. split; [reflexivity|]. split; [|reflexivity].
+    intros _. exists a. assert (a = 0 \/ a = 1) as [-> | ->] by lia; reflexivity.
+  - apply Z.eqb_neq in E2. rewrite (HL E2). cbn [bind]. eexists; split; [reflexivity|].
+    destruct (legendre_symbol_spec p a Hp E2) as [Hsq _]. rewrite (Z.mod_small a p Ha) in Hsq.
+    rewrite <- Hsq. rewrite negb_true_iff, Z.eqb_neq. reflexivity.
+Qed.
+
+(** the Euler test itself (what ExtensionFieldElement._is_sqr computes) decides squareness, every prime *)
+Definition euler_is_sqr (p a : Z) : bool :=
+  if p =? 2 then true else negb (a ^ ((p - 1) / 2) mod p =? p - 1).
+
+Theorem euler_is_sqr_correct p a : prime p -> 0 <= a < p ->
+  (euler_is_sqr p a = true <-> exists b, (b * b) mod p = a).
+Proof.
+  intros Hp Ha. pose proof (prime_ge_2 p Hp) as Hp2. unfold euler_is_sqr. destruct (p =? 2) eqn:E2.
+  - apply Z.eqb_eq in E2. subst p. split; [|reflexivity].
+    intros _. exists a. assert (a = 0 \/ a = 1) as [-> | ->] by lia; reflexivity.
+  - apply Z.eqb_neq in E2. rewrite negb_true_iff, Z.eqb_neq.
+    destruct (odd_prime_half p Hp E2) as [Hh Hh1].
+    destruct (Z.eq_dec a 0) as [->|Hne].
+    + rewrite Z.pow_0_l by lia. rewrite Z.mod_0_l by lia. split; [|lia].
+      intros _. exists 0. apply Z.mod_0_l. lia.
+    + assert (E0 : a mod p <> 0) by (rewrite Z.mod_small by lia; exact Hne).
+      destruct (euler_criterion p a Hp E2 E0) as [Hiff Hpm]. rewrite (Z.mod_small a p Ha) in Hiff.
+      rewrite <- Hiff. destruct Hpm as [E|E]; rewrite E; split; intros; try lia.
+Qed.
+
+(** *** the Cipolla-Lehmer ladder computes X^e in Z[X]/(X^2 - b X + a), reduced modulo p — every e, every p <> 0 *)
+Section Ladder.
+Variables p a b : Z.
+Hypothesis Hp0 : p <> 0.
+
+(** integer model of the quotient ring: (u, v) stands for u*X + v, with X^2 = b*X - a *)
+Definition qmulZ (x y : Z * Z) : Z * Z :=
+  (fst x * fst y * b + fst x * snd y + fst y * snd x, snd x * snd y - a * fst x * fst y).
+Definition mxZ (x : Z * Z) : Z * Z := (snd x + b * fst x, - a * fst x).       (* multiplication by X *)
+Fixpoint Xpow (n : nat) : Z * Z := match n with O => (0, 1) | S n' => mxZ (Xpow n') end.
+
+Lemma qmul_mx x y : qmulZ x (mxZ y) = mxZ (qmulZ x y).
+Proof. destruct x as [u1 v1], y as [u2 v2]. unfold qmulZ, mxZ; cbn [fst snd]. f_equal; ring. Qed.
+
+Lemma Xpow_add n m : qmulZ (Xpow n) (Xpow m) = Xpow (n + m).
+Proof.
+  induction m as [|m IH].
+  - rewrite Nat.add_0_r. destruct (Xpow n) as [u v]. unfold qmulZ; cbn [Xpow fst snd]. f_equal; ring.
+  - rewrite Nat.add_succ_r. cbn [Xpow]. rewrite qmul_mx, IH. reflexivity.
+Qed.
+
+Definition congp (x y : Z * Z) : Prop := fst x mod p = fst y mod p /\ snd x mod p = snd y mod p.
+
+Lemma eqm_of (x y k : Z) : x = y + k * p -> x mod p = y mod p.
+Proof. intros ->. apply Z.mod_add. exact Hp0. Qed.
+
+Lemma modk (x : Z) : exists k, x mod p = x + k * p.
+Proof. exists (- (x / p)). pose proof (Z.div_mod x p Hp0). lia. Qed.
+
+Lemma cong_k (x y : Z) : x mod p = y mod p -> exists k, x = y + k * p.
+Proof.
+  intros E. exists (x / p - y / p). pose proof (Z.div_mod x p Hp0). pose proof (Z.div_mod y p Hp0). lia.
+Qed.
+
+Lemma lad_sq_cong uv UV : congp uv UV -> congp (lad_sq p a b uv) (qmulZ UV UV).
+Proof.
+  destruct uv as [u v], UV as [U V]. unfold congp; cbn [fst snd]. intros [Hu Hv].
+  destruct (cong_k u U Hu) as [ku ->]. destruct (cong_k v V Hv) as [kv ->].
+  unfold lad_sq, qmulZ; cbn [fst snd]. rewrite Z.shiftl_mul_pow2 by lia. change (2 ^ 1) with 2.
+  destruct (modk ((U + ku * p) * (U + ku * p))) as [k2 ->].
+  rewrite !Z.mod_mod by exact Hp0. split.
+  - apply (eqm_of _ _ (2 * ku * V + 2 * U * kv + 2 * ku * kv * p + b * (2 * U * ku + ku * ku * p + k2))). ring.
+  - apply (eqm_of _ _ (2 * V * kv + kv * kv * p - a * (2 * U * ku + ku * ku * p + k2))). ring.
+Qed.
+
+Lemma lad_mx_cong uv UV : congp uv UV -> congp (lad_mx p a b uv) (mxZ UV).
+Proof.
+  destruct uv as [u v], UV as [U V]. unfold congp; cbn [fst snd]. intros [Hu Hv].
+  destruct (cong_k u U Hu) as [ku ->]. destruct (cong_k v V Hv) as [kv ->].
+  unfold lad_mx, mxZ; cbn [fst snd]. rewrite !Z.mod_mod by exact Hp0. split.
+  - apply (eqm_of _ _ (kv + b * ku)). ring.
+  - apply (eqm_of _ _ (- a * ku)). ring.
+Qed.
+
+Lemma congp_refl x : congp x x.
+Proof. split; reflexivity. Qed.
+
+(** loop invariant of the ladder: after processing the bits of e the pair (u, v) is X^e modulo p *)
+Theorem ladder_is_Xpow (e : positive) : congp (ladder p a b e) (Xpow (Pos.to_nat e)).
+Proof.
+  induction e as [e IH|e IH|]; cbn [ladder].
+  - rewrite Pos2Nat.inj_xI. replace (S (2 * Pos.to_nat e)) with (S (Pos.to_nat e + Pos.to_nat e)) by lia.
+    cbn [Xpow]. rewrite <- Xpow_add. apply lad_mx_cong, lad_sq_cong, IH.
+  - rewrite Pos2Nat.inj_xO. replace (2 * Pos.to_nat e)%nat with (Pos.to_nat e + Pos.to_nat e)%nat by lia.
+    rewrite <- Xpow_add. apply lad_sq_cong, IH.
+  - change (Pos.to_nat 1) with 1%nat. cbn [Xpow].
+    apply lad_mx_cong. cbn [Xpow].
+    assert (E : qmulZ (0, 1) (0, 1) = (0, 1)) by (unfold qmulZ; cbn [fst snd]; f_equal; ring).
+    pose proof (lad_sq_cong (0, 1) (0, 1) (congp_refl _)) as H. rewrite E in H. exact H.
+Qed.
+
+Lemma ladder_reduced (e : positive) : fst (ladder p a b e) mod p = fst (ladder p a b e) /\
+                                      snd (ladder p a b e) mod p = snd (ladder p a b e).
+Proof.
+  destruct e; cbn [ladder];
+    match goal with |- context [lad_mx p a b ?x] => destruct x as [u v]; unfold lad_mx; cbn [fst snd]
+                  | |- context [lad_sq p a b ?x] => destruct x as [u v]; unfold lad_sq; cbn [fst snd] end;
+    split; apply Z.mod_mod; exact Hp0.
+Qed.
+End Ladder.
+
+(** *** Cipolla-Lehmer: the ladder's v is a square root, relative to the norm identity X^(p+1) = a *)
+Section CipollaAlg.
+Variable K : FieldT.
+Add Field KF2 : (fth K).
+Notation "0" := (f0 K). Notation "1" := (f1 K).
+Infix "+" := (fadd K). Infix "*" := (fmul K). Infix "-" := (fsub K). Infix "/" := (fdiv K).
+
+(** (x X + y)^2 = A in K[X]/(X^2 - B X + A), A = s^2 <> 0, B^2 - 4A not a square  ==>  y^2 = A (and x = 0) *)
+Lemma cipolla_alg (x y A B s : K) :
+  s * s = A -> A <> 0 ->
+  x * x * B + x * y + x * y = 0 -> y * y - A * x * x = A ->
+  (forall c, c * c <> B * B - (1 + 1 + 1 + 1) * A) -> y * y = A.
+Proof.
+  intros Hs HA H1 H2 Hnr.
+  destruct (feq_dec K x 0) as [Hx|Hx].
+  - subst x. transitivity (y * y - A * 0 * 0); [ring|exact H2].
+  - exfalso.
+    assert (H3 : x * B + (y + y) = 0).
+    { apply (fmul_eq0 K x); [|exact Hx]. transitivity (x * x * B + x * y + x * y); [ring|exact H1]. }
+    assert (H3' : x * B = 0 - (y + y)) by (transitivity ((x * B + (y + y)) - (y + y)); [ring|rewrite H3; ring]).
+    set (c := (s + s) / x).
+    apply (Hnr c). apply (fsub_eq0 K). apply (fmul_eq0 K (x * x)); [|apply fmul_neq0; exact Hx].
+    transitivity (x * x * (c * c) - ((x * B) * (x * B) - (1 + 1 + 1 + 1) * A * x * x)); [ring|].
+    rewrite H3'.
+    transitivity ((s + s) * (s + s) - (1 + 1 + 1 + 1) * (y * y - A * x * x)); [unfold c; field; exact Hx|].
+    rewrite H2. transitivity ((1 + 1 + 1 + 1) * (s * s) - (1 + 1 + 1 + 1) * A); [ring|]. rewrite Hs. ring.
+Qed.
+End CipollaAlg.
+
+Section CipollaZ.
+Variable p : Z.
+Hypothesis Hp : prime p.
+Let Hp2 := prime_ge_2 p Hp.
+Let Hn0 : p <> 0. Proof. lia. Qed.
+Notation Kp := (ZpField p Hp).
+Notation "[ x ]" := (mkZp p x).
+
+Lemma mk_eq x y : x mod p = y mod p -> [x] = [y].
+Proof. intros E. apply Zp_eq. rewrite !zval_mkZp. exact E. Qed.
+Lemma mk_add x y : [x + y] = fadd Kp [x] [y].
+Proof. apply Zp_eq. cbn [fadd ZpField fops ZpOps]. rewrite !zval_mkZp. apply Z.add_mod. lia. Qed.
+Lemma mk_mul x y : [x * y] = fmul Kp [x] [y].
+Proof. apply Zp_eq. cbn [fmul ZpField fops ZpOps]. rewrite !zval_mkZp. apply Z.mul_mod. lia. Qed.
+Lemma mk_sub x y : [x - y] = fsub Kp [x] [y].
+Proof. apply Zp_eq. cbn [fsub ZpField fops ZpOps]. rewrite !zval_mkZp. apply Zminus_mod. Qed.
+
+(** if X^(2n) = a in the quotient ring (norm identity, n = (p+1)/2), a is a nonzero square and b^2 - 4a is a
+    non-residue, then the constant coefficient v of the ladder's result X^n = u X + v satisfies v^2 = a *)
+Theorem cipolla_correct_if (a b : Z) (e : positive) :
+  a mod p <> 0 -> (exists s, (s * s) mod p = a mod p) ->
+  (~ exists c, (c * c) mod p = (b * b - 4 * a) mod p) ->
+  congp p (Xpow a b (Pos.to_nat e + Pos.to_nat e)) (0, a) ->
+  (snd (ladder p a b e) * snd (ladder p a b e)) mod p = a mod p.
+Proof.
+  intros Ha [s Hs] Hnr Hnorm.
+  pose proof (ladder_is_Xpow p a b Hn0 e) as [Hu Hv].
+  rewrite <- Xpow_add in Hnorm. destruct (Xpow a b (Pos.to_nat e)) as [U V].
+  destruct (ladder p a b e) as [u v]. cbn [fst snd] in *.
+  destruct Hnorm as [N1 N2]. unfold qmulZ in N1, N2; cbn [fst snd] in N1, N2.
+  assert (E : fmul Kp [V] [V] = [a]).
+  { apply (cipolla_alg Kp [U] [V] [a] [b] [s]).
+    - rewrite <- mk_mul. apply mk_eq, Hs.
+    - apply mkZp_neq0; [lia|exact Ha].
+    - rewrite <- !mk_mul, <- !mk_add. transitivity [0]; [apply mk_eq|reflexivity].
+      first [exact N1 | (rewrite <- N1; f_equal; ring)].
+    - rewrite <- !mk_mul, <- mk_sub. apply mk_eq. first [exact N2 | (rewrite <- N2; f_equal; ring)].
+    - intros c Hc. apply Hnr. exists (zval c).
+      assert (E4 : fadd Kp (fadd Kp (fadd Kp (f1 Kp) (f1 Kp)) (f1 Kp)) (f1 Kp) = [4]).
+      { apply Zp_eq. cbn [fadd f1 ZpField fops ZpOps]. rewrite !zval_mkZp.
+        rewrite !(Z.mod_1_l p) by lia. rewrite !Z.add_mod_idemp_l by lia.
+        rewrite <- Z.add_assoc. rewrite Z.add_mod_idemp_l by lia. reflexivity. }
+      rewrite E4 in Hc. rewrite <- !mk_mul, <- mk_sub in Hc.
+      apply (f_equal zval) in Hc. rewrite zval_mkZp in Hc. rewrite <- Hc. reflexivity. }
+  rewrite <- mk_mul in E. apply (f_equal zval) in E. rewrite !zval_mkZp in E.
+  rewrite <- E. rewrite Z.mul_mod, Hv, <- Z.mul_mod by lia. reflexivity.
+Qed.
+End CipollaZ.
